@@ -234,7 +234,7 @@ impl<Req, Res, E> CircuitBreaker<Req, Res, E> {
         ensures
             r matches Poll::Ready(Ok(_)) ==> final(self).inner.ready@,   // #ready_only_when_inner_ready [C20]
             r matches Poll::Ready(Err(e)) ==> e is Inner,   // #readiness_errors_surface_as_inner [C20]
-            final(self).circuit == old(self).circuit && final(self).state_atomic == old(self).state_atomic && final(self).config == old(self).config,   // #frame
+            final(self).circuit == old(self).circuit && final(self).state_atomic == old(self).state_atomic && final(self).config == old(self).config,   // #shared_state_handles_and_configuration_are_left_untouched [C03,C04]
     //@body CircuitBreaker::poll_ready@Service file=lib
 
     pub fn call(&mut self, req: Req, clk: &mut Clock, Tracked(tr): Tracked<&mut Trace<Req, Res, E>>) -> (result: Result<Res, CircuitBreakerError<E>>)
@@ -287,7 +287,7 @@ impl<Req, Res, E> CircuitBreakerWithFallback<Req, Res, E> {
         ensures
             r matches Poll::Ready(Ok(_)) ==> final(self).inner.ready@,   // #ready_only_when_inner_ready [C20]
             r matches Poll::Ready(Err(e)) ==> e is Inner,   // #readiness_errors_surface_as_inner [C20]
-            final(self).circuit == old(self).circuit && final(self).state_atomic == old(self).state_atomic && final(self).config == old(self).config,   // #frame
+            final(self).circuit == old(self).circuit && final(self).state_atomic == old(self).state_atomic && final(self).config == old(self).config,   // #shared_state_handles_and_configuration_are_left_untouched [C03,C04]
     //@body CircuitBreakerWithFallback::poll_ready@Service file=lib
 
     pub fn call(&mut self, req: Req, clk: &mut Clock, Tracked(tr): Tracked<&mut Trace<Req, Res, E>>) -> (result: Result<Res, CircuitBreakerError<E>>)
